@@ -22,6 +22,9 @@ sys.path.insert(0, os.path.dirname(os.path.abspath(__file__)))
 import common  # noqa: E402
 
 LEAN = common.LEAN_DIR
+# generator subprocesses must import the tree under test (VERIF_REPO), not the installed copy
+os.environ['PYTHONPATH'] = common.REPO
+os.environ['VERIF_REPO'] = common.REPO
 PY = '/venv/bin/python'
 ALLOWED_AXIOMS = {'propext', 'Classical.choice', 'Quot.sound'}
 LAKE_TARGETS = ['PyRt', 'Gen', 'Spec', 'Lemmas', 'Props', 'driver']
@@ -30,7 +33,7 @@ LAKE_TARGETS = ['PyRt', 'Gen', 'Spec', 'Lemmas', 'Props', 'driver']
 def inputs_hash():
     h = hashlib.sha256()
     h.update(common.tree_hash().encode())
-    pats = ['tools/py2lean/*.py', 'tools/gen_props.py', 'tools/prepare.py', 'lean/lakefile.toml',
+    pats = ['tools/py2lean/*.py', 'tools/gen_props.py', 'tools/gen_gs1.py', 'tools/prepare.py', 'lean/lakefile.toml',
             'lean/PyRt/*.lean', 'lean/Spec/*.lean', 'lean/Lemmas/*.lean', 'lean/Props/*.lean',
             'lean/Driver/Main.lean', 'lean/Driver/[A-CE-Z]*.lean', 'lean/*.lean', 'obligations/*.json']
     for pat in pats:
@@ -174,6 +177,10 @@ def prepare(verbose=False):
         res['steps']['py2lean'] = {'rc': rc, 's': secs, 'out': out[-3000:]}
         rc2, out2, secs2 = run([PY, os.path.join(common.VERIF, 'tools', 'py2lean', 'gen_driver.py'), LEAN])
         res['steps']['gen_driver'] = {'rc': rc2, 's': secs2, 'out': out2[-1000:]}
+        gg = os.path.join(common.VERIF, 'tools', 'gen_gs1.py')
+        if os.path.exists(gg):
+            rcg, outg, secsg = run([PY, gg], cwd=common.VERIF)
+            res['steps']['gen_gs1'] = {'rc': rcg, 's': secsg, 'out': outg[-500:]}
         gp = os.path.join(common.VERIF, 'tools', 'gen_props.py')
         if os.path.exists(gp):
             rc3, out3, secs3 = run([PY, gp])
